@@ -78,12 +78,24 @@ Proof.
 Qed.
 
 (** First character of an expression: an opener, a digit or "(". *)
-Definition expr_head (c : N) : Prop := opener c \/ is_digit c = true \/ c = 40.
+Definition expr_head (c : N) : Prop := opener c \/ naked_edge c = true \/ c = 40.
 
-Lemma print_amt_head am : amt_ok am = true -> exists c r, print_amt am = c :: r /\ is_digit c = true.
+Lemma digit_edge0 c : is_digit c = true -> naked_edge c = true.
+Proof. intro H. destruct (digit_cases c H) as [->|[->|[->|[->|[->|[->|[->|[->|[->| ->]]]]]]]]]; reflexivity. Qed.
+
+Lemma naked_textb_text (A : str) : naked_textb A = true -> naked_text A.
 Proof.
-  intro H. destruct (amt_ok_parts am H) as [Hn _]. destruct (ntext_head (amt_num am) Hn) as [c [r [E Hc]]].
-  unfold print_amt. rewrite E. exists c, (r ++ amt_tail am). split; [reflexivity | exact Hc].
+  unfold naked_textb. destruct A as [|c0 A']; [discriminate|]. intro H. apply andb_true_iff in H as [H Hl].
+  apply andb_true_iff in H as [He Hm]. apply negb_true_iff in Hl. exists c0, A'. repeat split; assumption.
+Qed.
+
+Lemma print_amt_head am : amt_ok am = true -> exists c r, print_amt am = c :: r /\ naked_edge c = true.
+Proof.
+  intro H. destruct (amt_ok_parts am H) as [Hn _]. unfold print_amt.
+  destruct am as [rw p | t | t sp n v p | t w0 pw | t w0 p | t w0]; cbn [lead_ok amt_lead amt_num] in *.
+  1: { apply andb_true_iff in Hn as [_ Hn]. destruct (naked_textb_text _ Hn) as [c0 [A' [E [He _]]]]. rewrite E.
+       exists c0, (A' ++ amt_tail (AmRem rw p)). split; [reflexivity | exact He]. }
+  all: destruct (ntext_head t Hn) as [c [r [E Hc]]]; rewrite E; eexists c, _; split; [reflexivity | exact (digit_edge0 c Hc)].
 Qed.
 
 Lemma print_expr_head e : expr_ok e = true -> exists c r, print_expr e = c :: r /\ expr_head c.
@@ -102,7 +114,7 @@ Qed.
 Lemma expr_head_not_ws c : expr_head c -> is_ws c = false.
 Proof.
   intros [[->|[->| ->]]|[H| ->]]; try reflexivity.
-  destruct (digit_cases c H) as [->|[->|[->|[->|[->|[->|[->|[->|[->| ->]]]]]]]]]; reflexivity.
+  unfold naked_edge in H. apply andb_true_iff in H as [_ H]. apply negb_true_iff in H. exact H.
 Qed.
 
 Lemma print_expr_stops_ws e (X : str) : expr_ok e = true -> stops is_ws (print_expr e ++ X).
@@ -295,10 +307,14 @@ Qed.
 Lemma amt_shape am : amt_ok am = true -> num_shape (print_amt am).
 Proof.
   intro Hok. destruct (amt_ok_parts am Hok) as [Hn HT]. unfold print_amt.
-  destruct (ntext_shape (amt_num am) Hn) as [A B | A | Y w' R E HY Hw'].
-  - exact (ShapeWhole2 _ (naked_text_app _ _ A HT)).
-  - exact (ShapeWhole2 _ (naked_text_app _ _ A HT)).
-  - apply (ShapeSlash _ Y w' (R ++ amt_tail am)); [|exact HY|exact Hw']. rewrite E. repeat rewrite <- app_assoc. reflexivity.
+  assert (G : forall t, amt_lead am = ntext_str t -> ntext_ok t = true -> num_shape (amt_lead am ++ amt_tail am)).
+  { intros t E Ht. rewrite E. destruct (ntext_shape t Ht) as [A B | A | Y w' R E' HY Hw'].
+    - exact (ShapeWhole2 _ (naked_text_app _ _ A HT)).
+    - exact (ShapeWhole2 _ (naked_text_app _ _ A HT)).
+    - apply (ShapeSlash _ Y w' (R ++ amt_tail am)); [|exact HY|exact Hw']. rewrite E'. repeat rewrite <- app_assoc. reflexivity. }
+  destruct am as [rw p | t | t sp n v p | t w0 pw | t w0 p | t w0]; cbn [lead_ok amt_lead amt_num] in *;
+    try (exact (G _ eq_refl Hn)).
+  apply andb_true_iff in Hn as [_ Hn]. exact (ShapeWhole2 _ (naked_text_app _ _ (naked_textb_text _ Hn) HT)).
 Qed.
 
 (** Where a NAME tried on a reference text stops: at the end of the whole
